@@ -1154,3 +1154,154 @@ Proof.
     rewrite D in H. lia.
   - cbn [f_hdr f_subs h_assign h_bps]. lia.
 Qed.
+
+(* ---------------- C19, second clause: a block of constant samples costs a few bytes per channel ---------------- *)
+Lemma first_min_zero {A} (key : A -> N) b rest : key b = 0 -> first_min key (b :: rest) = Some b.
+Proof.
+  intros Hb. cbn [first_min]. destruct (first_min key rest) as [x|]; [|reflexivity].
+  rewrite Hb. destruct (N.ltb_spec (key x) 0); [lia|reflexivity].
+Qed.
+
+Lemma abs_sum_zeros k : abs_sum (repeat 0%Z k) = 0.
+Proof. induction k as [|k IH]; cbn [repeat abs_sum fold_right]; [reflexivity|]. fold (abs_sum (repeat 0%Z k)). rewrite IH. reflexivity. Qed.
+Lemma skipn_repeat {A} (x : A) : forall k n, skipn k (repeat x n) = repeat x (n - k).
+Proof. induction k as [|k IH]; intros [|n]; cbn [skipn repeat Nat.sub]; auto. Qed.
+Lemma firstn_repeat_all {A} (x : A) n : firstn n (repeat x n) = repeat x n.
+Proof. rewrite <- (repeat_length x n) at 1. apply firstn_all. Qed.
+Lemma diff_repeat c : forall n, diff (repeat c n) = repeat 0%Z (n - 1).
+Proof.
+  induction n as [|[|n] IH]; try reflexivity.
+  cbn [repeat diff] in *. rewrite IH. cbn [Nat.sub repeat]. rewrite Z.sub_diag, Nat.sub_0_r. reflexivity.
+Qed.
+Lemma abs_sum_repeat_pos c k : c <> 0%Z -> (0 < k)%nat -> 0 < abs_sum (repeat c k).
+Proof. intros Hc Hk. destruct k; [lia|]. cbn [repeat abs_sum fold_right]. unfold absN. lia. Qed.
+
+Lemma last_In {A} (d : A) l : l <> [] -> In (last l d) l.
+Proof.
+  induction l as [|a [|b l] IH]; intros H; [congruence|left; reflexivity|].
+  right. apply IH. discriminate.
+Qed.
+Lemma fixed_orders_nonempty : forall fuel prev x, In x (fixed_orders fuel prev) -> x <> [].
+Proof.
+  induction fuel as [|f IH]; intros prev x H; cbn [fixed_orders] in H; [destruct H|].
+  destruct (forallb (fits 32) (diff prev) && negb (is_nil (diff prev))) eqn:E; [|destruct H].
+  apply andb_prop in E. destruct E as [_ E]. destruct H as [<-|H]; [|eapply IH; eauto].
+  destruct (diff prev); [discriminate|discriminate].
+Qed.
+Lemma fixed_orders_len : forall fuel prev x, In x (fixed_orders fuel prev) -> (length x < length prev)%nat.
+Proof.
+  induction fuel as [|f IH]; intros prev x H; cbn [fixed_orders] in H; [destruct H|].
+  destruct (forallb (fits 32) (diff prev) && negb (is_nil (diff prev))) eqn:E; [|destruct H].
+  apply andb_prop in E. destruct E as [_ E].
+  assert (Hd : (length (diff prev) < length prev)%nat).
+  { rewrite diff_length. destruct prev; [discriminate|cbn [length]; lia]. }
+  destruct H as [<-|H]; [exact Hd|]. specialize (IH _ _ H). lia.
+Qed.
+
+Lemma no_min_zeros k : existsb (Z.eqb (- 2 ^ 31)) (repeat 0%Z k) = false.
+Proof. induction k as [|k IH]; cbn [repeat existsb]; [reflexivity|]. rewrite IH. reflexivity. Qed.
+
+(* the FIXED candidate of a constant non-zero run of n >= 2 samples: order 1, one all-zero partition *)
+Lemma enc_fixed_constant o c n : c <> 0%Z -> fits 32 c = true -> (2 <= n)%nat ->
+  enc_fixed o (repeat c n) = Some (BFixed 1 [c] {| r_method := 0; r_parts := [PZero (n - 1)] |}).
+Proof.
+  intros Hc Fc Hn. unfold enc_fixed. set (ys := repeat c n).
+  assert (Ed : diff ys = repeat 0%Z (n - 1)) by apply diff_repeat.
+  assert (F0 : forall k, forallb (fits 32) (repeat 0%Z k) = true).
+  { intros k. apply forallb_forall. intros z Hz. apply repeat_spec in Hz. subst z. reflexivity. }
+  assert (Eo : exists tail, fixed_orders 4 ys = repeat 0%Z (n - 1) :: tail).
+  { cbn [fixed_orders]. rewrite Ed, F0. destruct (n - 1)%nat eqn:E1; [lia|]. cbn [repeat is_nil negb andb]. eauto. }
+  destruct Eo as [tail Eo]. rewrite Eo.
+  set (ords := ys :: repeat 0%Z (n - 1) :: tail).
+  set (minlen := length (last ords ys)).
+  assert (Hml : (1 <= minlen <= n - 1)%nat).
+  { unfold minlen. assert (Hin : In (last ords ys) ords) by (apply last_In; discriminate).
+    assert (Hlast : last ords ys = last (repeat 0%Z (n - 1) :: tail) ys) by reflexivity.
+    rewrite Hlast. assert (Hin2 : In (last (repeat 0%Z (n - 1) :: tail) ys) (fixed_orders 4 ys)).
+    { rewrite Eo. apply last_In. discriminate. }
+    pose proof (fixed_orders_nonempty _ _ _ Hin2) as Hne. pose proof (fixed_orders_len _ _ _ Hin2) as Hl.
+    assert (Ly : length ys = n) by apply repeat_length. rewrite Ly in Hl.
+    destruct (last (repeat 0%Z (n - 1) :: tail) ys); [congruence|cbn [length] in *; lia]. }
+  cbn [length seq combine].
+  (* entry 0 has a positive key, entry 1 has key 0: entry 1 is the first minimum *)
+  set (key := fun p : nat * list Z => abs_sum (skipn (length (snd p) - minlen) (snd p))).
+  assert (K1 : key (1%nat, repeat 0%Z (n - 1)) = 0).
+  { unfold key. cbn [snd]. rewrite skipn_repeat. apply abs_sum_zeros. }
+  assert (K0 : 0 < key (0%nat, ys)).
+  { unfold key, ys. cbn [snd]. rewrite skipn_repeat, repeat_length. apply abs_sum_repeat_pos; [exact Hc|lia]. }
+  change (combine (seq 0 (length ords)) ords)
+    with ((0%nat, ys) :: (1%nat, repeat 0%Z (n - 1)) :: combine (seq 2 (length tail)) tail).
+  fold key. change (first_min key ((0%nat, ys) :: (1%nat, repeat 0%Z (n - 1)) :: combine (seq 2 (length tail)) tail))
+    with (match first_min key ((1%nat, repeat 0%Z (n - 1)) :: combine (seq 2 (length tail)) tail) with
+          | Some b => if key b <? key (0%nat, ys) then Some b else Some (0%nat, ys)
+          | None => Some (0%nat, ys) end).
+  rewrite (first_min_zero key _ _ K1). rewrite K1. destruct (N.ltb_spec 0 (key (0%nat, ys))); [|lia].
+  (* the residuals: n - 1 zeros *)
+  unfold enc_residual.
+  rewrite no_min_zeros. rewrite repeat_length.
+  replace (N.of_nat 1 + N.of_nat (n - 1)) with (N.of_nat n) by lia.
+  assert (Eb : forall rmax, best_parts rmax (eo_max_po o) (N.of_nat n) (repeat 0%Z (n - 1)) = [PZero (n - 1)]).
+  { intros rmax. unfold best_parts. cbn [seq map]. cbn [Enc.filter_map].
+    assert (Ec : enc_candidate rmax (N.of_nat n) (repeat 0%Z (n - 1)) (N.of_nat 0) = Some ([PZero (n - 1)], 0)).
+    { unfold enc_candidate. change (N.of_nat 0) with 0. rewrite N.pow_0_r, N.div_1_r, Nat2N.id, repeat_length.
+      unfold rchunk_lens. rewrite Nat.mod_small, Nat.div_small by lia.
+      destruct (Nat.eqb_spec (n - 1) 0); [lia|]. cbn [repeat app split_lens].
+      rewrite firstn_repeat_all. cbn [enc_parts]. unfold enc_part. rewrite repeat_length, abs_sum_zeros.
+      destruct (N.eqb_spec (N.of_nat (n - 1)) 0); [lia|]. cbn [N.eqb]. cbn [length N.to_nat Pos.to_nat Pos.iter_op Nat.add Nat.eqb]. reflexivity. }
+    rewrite Ec. rewrite (first_min_zero snd ([PZero (n - 1)], 0) _ eq_refl). reflexivity. }
+  rewrite !Eb. unfold ys. destruct n as [|n']; [lia|].
+  destruct (eo_rice2 o); cbn [forallb r_parts part_writable andb repeat firstn]; reflexivity.
+Qed.
+
+Lemma enc_subframe_le_fixed bps xs f lpc w : common_wasted xs = Some w -> w <= bps ->
+  sf_bits bps (enc_subframe bps xs (Some f) lpc) <= 8 + w + sf_bits bps f.
+Proof.
+  intros Ew Hw. unfold enc_subframe. rewrite Ew. cbv zeta.
+  set (ys := map (fun x => (x / 2 ^ Z.of_N w)%Z) xs).
+  assert (Hb : exists b, (match lpc with
+                          | Some l => match l with Some c => Some (if sf_bits bps c <? sf_bits bps f then c else f) | None => Some f end
+                          | None => Some f end) = Some b /\ sf_bits bps b <= sf_bits bps f).
+  { destruct lpc as [[c|]|]; try (exists f; split; [reflexivity|lia]).
+    destruct (N.ltb_spec (sf_bits bps c) (sf_bits bps f)); [exists c|exists f]; split; try reflexivity; lia. }
+  destruct Hb as (b & -> & Hle).
+  destruct (N.ltb_spec (sf_bits bps b) (N.of_nat (length xs) * (bps - w))); [lia|].
+  rewrite verbatim_bits by exact Hw. unfold ys. rewrite map_length. destruct (w =? 0); lia.
+Qed.
+
+Lemma map_repeat {A B} (f : A -> B) x n : map f (repeat x n) = repeat (f x) n.
+Proof. induction n as [|n IH]; cbn [repeat map]; congruence. Qed.
+
+(* C19, second clause, for the encoder as written: a run of n equal samples costs at most 96 bits
+   per channel whatever n, the options and the LPC oracle are *)
+Theorem enc_sub_constant o L bps c n : (1 <= n)%nat -> fits bps c = true -> 1 <= bps -> bps <= 32 ->
+  sf_bits bps (enc_sub o L bps (repeat c n)) <= 96.
+Proof.
+  intros Hn Fc Hb1 Hb32. set (xs := repeat c n).
+  assert (F : forallb (fits bps) xs = true).
+  { apply forallb_forall. intros z Hz. apply repeat_spec in Hz. subst z. exact Fc. }
+  assert (Hne : xs <> []) by (unfold xs; destruct n; [lia|discriminate]).
+  destruct (Nat.eq_dec n 1) as [->|Hn2].
+  { pose proof (enc_sub_bits o L bps xs Hne F Hb1) as B. unfold xs in B at 2. cbn [repeat length] in B. lia. }
+  unfold enc_sub. destruct (common_wasted xs) as [w|] eqn:Ew.
+  - destruct (wasted_facts _ _ _ Ew F) as [Hw D].
+    destruct (shifted_facts _ _ _ Ew F) as [_ Hfit]. cbv zeta in Hfit.
+    assert (Hc : c <> 0%Z).
+    { rewrite common_wasted_fold in Ew. destruct (cw_some _ _ _ Ew) as (_ & _ & He).
+      destruct (He eq_refl) as (x & Hx & Nx). apply repeat_spec in Hx. congruence. }
+    unfold xs in Hfit |- *. rewrite map_repeat in Hfit |- *. fold xs.
+    set (c' := (c / 2 ^ Z.of_N w)%Z) in *.
+    assert (Fc' : fits (bps - w) c' = true).
+    { rewrite forallb_forall in Hfit. apply Hfit. destruct n; [lia|left; reflexivity]. }
+    assert (Hc' : c' <> 0%Z).
+    { destruct (D c) as [q Hq]; [unfold xs; destruct n; [lia|left; reflexivity]|].
+      unfold c'. rewrite Hq, div_mul_pow. intros ->. rewrite Z.mul_0_l in Hq. congruence. }
+    rewrite (enc_fixed_constant o c' n Hc' (fits_mono (bps - w) 32 c' Fc' ltac:(lia)) ltac:(lia)). cbn [option_map].
+    eapply N.le_trans; [apply enc_subframe_le_fixed; [exact Ew|lia]|].
+    unfold sf_bits, write_subframe. cbn [sf_wasted sf_body flat_map].
+    rewrite !app_length, header_bits, wr_s_length. cbn [length].
+    unfold write_residual. cbn [r_method r_parts flat_map write_part N.eqb length].
+    rewrite !app_length, !wr_length. cbn [length].
+    destruct (w =? 0); lia.
+  - unfold enc_subframe. rewrite Ew. unfold sf_bits, write_subframe. cbn [sf_wasted sf_body].
+    rewrite app_length, header_bits, wr_s_length. cbn [N.eqb]. lia.
+Qed.
